@@ -13,8 +13,9 @@
            onAccepted/onConnected that announces it (its registration is withdrawn when that
            callback returns, whatever it returns); every dispatched event kind is one the object is
            registered for at that moment (onRead: read interest; a send from the loop: write
-           interest; accept: accept interest; the SO_ERROR query: the connect interest that
-           was withdrawn just before);
+           interest; onWrite: the write interest that was withdrawn just before; accept:
+           accept interest; the SO_ERROR query: the connect interest that was withdrawn just
+           before);
      cmon  a failed read or write of a client is answered by onClosed (or the client's
            removal) before the loop waits for or dispatches another socket event;
      imon  run() returns only when interrupt() was called and not yet consumed; once that is
@@ -130,7 +131,7 @@ Record rmon := mkRm {
   r_tm : list Z; r_cl : list Z; r_li : list Z; r_es : list Z;   (* live objects *)
   r_seen : list ent;                                            (* identities ever used *)
   r_reg : list (ent * Z);                                       (* registered sockets and their native mask *)
-  r_lastdel : option (ent * Z)                                  (* the previous event was this epoll_ctl(DEL) *)
+  r_lastdel : option (ctlop * ent * Z)                          (* the previous event was this epoll_ctl(MOD/DEL); the mask before it *)
 }.
 Definition rmon0 := mkRm [] [] [] [] [] [] None.
 
@@ -150,7 +151,7 @@ Definition r_del (e : ent) (m : rmon) : rmon :=
   | Li i => mkRm (r_tm m) (r_cl m) (zremove i (r_li m)) (r_es m) (r_seen m) (r_reg m) None
   | Es i => mkRm (r_tm m) (r_cl m) (r_li m) (zremove i (r_es m)) (r_seen m) (r_reg m) None
   end.
-Definition r_setreg (v : list (ent * Z)) (ld : option (ent * Z)) (m : rmon) : rmon :=
+Definition r_setreg (v : list (ent * Z)) (ld : option (ctlop * ent * Z)) (m : rmon) : rmon :=
   mkRm (r_tm m) (r_cl m) (r_li m) (r_es m) (r_seen m) v ld.
 Definition r_plain (m : rmon) : rmon := r_setreg (r_reg m) None m.
 
@@ -188,7 +189,10 @@ Definition rmon_step (m : rmon) (e : ev) : option rmon :=
       if r_alive m x &&
          (match x, k with
           | Cl _, KRead => reg_has m x has_in
-          | Cl _, KWrite => reg_has m x (fun _ => true)
+          | Cl i, KWrite => match r_lastdel m with
+                            | Some (CMod, Cl j, old) => (j =? i) && has_out old
+                            | _ => false
+                            end
           | Cl _, KClosed => true
           | Es _, KAbolished => negb (reg_has m x (fun _ => true))
           | _, _ => false
@@ -198,11 +202,14 @@ Definition rmon_step (m : rmon) (e : ev) : option rmon :=
       if r_alive m x && negb (reg_has m x (fun _ => true)) && mask_ok x mask
       then Some (r_setreg (r_reg m ++ [(x, mask)]) None m) else None
   | EvCtl CMod x mask =>
-      if r_alive m x && reg_has m x (fun _ => true) && mask_ok x mask
-      then Some (r_setreg (aset ent_eqb x mask (r_reg m)) None m) else None
+      match alookup ent_eqb x (r_reg m) with
+      | Some old => if r_alive m x && mask_ok x mask
+                    then Some (r_setreg (aset ent_eqb x mask (r_reg m)) (Some (CMod, x, old)) m) else None
+      | None => None
+      end
   | EvCtl CDel x _ =>
       match alookup ent_eqb x (r_reg m) with
-      | Some old => Some (r_setreg (aremove ent_eqb x (r_reg m)) (Some (x, old)) m)
+      | Some old => Some (r_setreg (aremove ent_eqb x (r_reg m)) (Some (CDel, x, old)) m)
       | None => None
       end
   | EvSend i _ _ true => if r_alive m (Cl i) && reg_has m (Cl i) has_out then Some (r_plain m) else None
@@ -211,7 +218,7 @@ Definition rmon_step (m : rmon) (e : ev) : option rmon :=
   | EvAccept i _ => if r_alive m (Li i) && reg_has m (Li i) has_in then Some (r_plain m) else None
   | EvSoErr i _ =>
       match r_lastdel m with
-      | Some (Es j, old) => if (j =? i) && r_alive m (Es i) && has_out old then Some (r_plain m) else None
+      | Some (CDel, Es j, old) => if (j =? i) && r_alive m (Es i) && has_out old then Some (r_plain m) else None
       | _ => None
       end
   | _ => Some (r_plain m)
